@@ -45,7 +45,55 @@ def memo_rule(repo: Repo, prop: str, rule_id: str, module_prefixes: Tuple[str, .
             for n in ast.walk(f2.node):
                 if isinstance(n, ast.Attribute) and isinstance(n.ctx, ast.Load) and n.attr in GEOMETRY_ATTRS:
                     reads.append((f2, n))
-        if reads:
+        # ... or from the object's own state that its class changes later (a memoised view of a list the class appends to)
+        stale_state = None
+        if fn.cls is not None and fn.params and not reads:
+            selfname = fn.params[0]
+            read_attrs = set()
+            seen_, todo_ = set(), [fn]
+            while todo_:
+                g_ = todo_.pop()
+                if g_ in seen_ or not g_.params:
+                    continue
+                seen_.add(g_)
+                sn_ = g_.params[0]
+                for n_ in ast.walk(g_.node):
+                    if isinstance(n_, ast.Attribute) and isinstance(n_.value, ast.Name) and n_.value.id == sn_ and isinstance(n_.ctx, ast.Load):
+                        read_attrs.add(n_.attr)
+                        m_ = repo.find_method(fn.cls, n_.attr)
+                        if m_ is not None and m_.is_property:
+                            todo_.append(m_)
+            MUT = {"append", "extend", "add", "clear", "sort", "remove", "pop", "insert", "update", "reverse", "discard"}
+            for c_ in repo.mro(fn.cls):
+                for m_ in c_.methods.values():
+                    if m_.name == "__init__" or m_ is fn or not m_.params:
+                        continue
+                    sn_ = m_.params[0]
+                    for n_ in ast.walk(m_.node):
+                        hit = None
+                        if isinstance(n_, (ast.Assign, ast.AugAssign, ast.AnnAssign)):
+                            for t_ in n_.targets if isinstance(n_, ast.Assign) else [n_.target]:
+                                b_ = t_
+                                while isinstance(b_, ast.Subscript):
+                                    b_ = b_.value
+                                if isinstance(b_, ast.Attribute) and isinstance(b_.value, ast.Name) and b_.value.id == sn_ and b_.attr in read_attrs:
+                                    hit = b_.attr
+                        elif isinstance(n_, ast.Call) and isinstance(n_.func, ast.Attribute) and n_.func.attr in MUT:
+                            b_ = n_.func.value
+                            if isinstance(b_, ast.Attribute) and isinstance(b_.value, ast.Name) and b_.value.id == sn_ and b_.attr in read_attrs:
+                                hit = b_.attr
+                        if hit is not None and stale_state is None:
+                            stale_state = (m_, hit, n_)
+        if stale_state is not None:
+            m_, attr_, node_ = stale_state
+            r.bad(
+                fn,
+                f"{fn.qualname} is memoised with @{decos[0]} but is computed from self.{attr_}, which {m_.qualname} changes later ('{ast.unparse(node_)[:50]}'): the first look freezes the value, "
+                "after the next change the same object keeps answering with the old one",
+                fn.node,
+                key="memo",
+            )
+        elif reads:
             f2, n = reads[0]
             r.bad(
                 fn,
